@@ -6,6 +6,7 @@ Requests are unique tagged tokens:  ('tok', client, seq, plan)  where plan is a 
   ('A', 'sleep', 0.01)     call sleeps
   ('A', 'reject', None)    preprocess raises Reject(tag, token id)
   ('A', 'poison', None)    (batched call) the whole batch raises BatchBoom(tag, ids of the batch)
+  ('A', 'die', None)       call raises SystemExit (the worker ends)
 A stage's result for value v is (tag, v), so the outcome of a servlet tree is a nested term that
 identifies the request and every stage that produced it.
 
@@ -163,6 +164,10 @@ class TagWorker(Worker):
                             time.sleep(arg)
                 for v in x:
                     for a, arg in plan_for(v, tag):
+                        if a == 'die':
+                            raise SystemExit(f'{tag} gives up')  # not an Exception: by design this ends the worker (and its servlet)
+                for v in x:
+                    for a, arg in plan_for(v, tag):
                         if a == 'poison':
                             raise BatchBoom(tag, [list(i) for i in ids])  # SITE-MARK-7f3a batch
                 return [(tag, v) for v in x]
@@ -176,6 +181,8 @@ class TagWorker(Worker):
                 for a, arg in plan_for(x, tag):
                     if a == 'sleep':
                         time.sleep(arg)
+                    elif a == 'die':
+                        raise SystemExit(f'{tag} gives up')
                     elif a == 'return-exc':
                         return Boom(tag, tid(x))  # returned, not raised: the library treats an exception value as this request's failure
                     elif a == 'fail':
